@@ -54,10 +54,13 @@ ASSUMPTIONS = [
 ]
 
 
+EXPECTED_PROBES = ['best_is_last_iteration_and_it_swapped', 'prune_on_an_already_used_object', 'accuracy_zero_in_every_iteration', 'best_iteration_is_not_last', 'learn_swapped_rows', 'more_fits_than_n_iterations', 'nan_weight_no_relevance_verdict', 'prototype_index_drawn', 'prune_discarded_rows', 'prune_dropped_a_relevant_row', 'tie_for_best_accuracy', 'unique_winner_is_first_of_conquest_order', 'winner_is_first_of_conquest_order']
+
+
 def arms(tier):
     if tier == "thorough":
-        return [("learn_adv", 1_800_000), ("learn_uni", 700_000), ("prune", 1_000_000), ("relevance", 1_500_000)]
-    return [("learn_adv", 60_000), ("learn_uni", 25_000), ("prune", 40_000), ("relevance", 60_000)]
+        return [("learn_adv", 1_800_000), ("learn_uni", 700_000), ("prune", 1_000_000), ("relevance", 1_500_000), ("seq", 900_000)]
+    return [("learn_adv", 60_000), ("learn_uni", 25_000), ("prune", 40_000), ("relevance", 60_000), ("seq", 30_000)]
 
 
 def hist_slice(tier):
@@ -113,6 +116,16 @@ def gen_case(rng, arm, tier, k=0):
                 draws.append(rng.choice((["lo"], ["hi"])))
     if arm == "relevance":
         case["passes"] = rng.randint(1, 3)
+    if arm == "seq":
+        # several calls on ONE model object, sharing the caller's arrays
+        case["op"] = "seq"
+        case["seq"] = [rng.choice(("fit_other", "learn", "prune", "predict", "fit")) for _ in range(rng.randint(2, 4))]
+        if "prune" not in case["seq"] and "learn" not in case["seq"]:
+            case["seq"].append(rng.choice(("prune", "learn")))
+        case["Xo"] = gen_matrix(rng, nt, d, style)
+        case["Yo"] = gen_labels(rng, nt, K)
+        for _ in range(rng.randint(0, 12)):
+            draws.append(rng.choice((["u", round(rng.random(), 4)], ["prev"], ["proto", rng.randrange(8)])))
     case["ops"] = draws
     return case
 
@@ -125,6 +138,7 @@ _OBS = None
 class Observer:
     def __init__(self, case, out, log):
         self.case = case
+        self.op = case["op"]
         self.out = out
         self.log = log
         self.model = None
@@ -191,6 +205,14 @@ class Observer:
         Y = np.asarray(Y)
         return collections.Counter((np.ascontiguousarray(X[i], dtype=np.float64).tobytes(), int(np.asarray(Y[i]).ravel()[0])) for i in range(len(X)))
 
+    @property
+    def changed_rows_after_last(self):
+        if self.prev_train is None:
+            return 0
+        Xt, Yt = self.caller[0], self.caller[1]
+        cur = [np.ascontiguousarray(r, dtype=np.float64).tobytes() + bytes([int(y) % 251]) for r, y in zip(np.asarray(Xt), Yt)]
+        return sum(1 for a, b in zip(cur, self.prev_train) if a != b)
+
     def check_conservation(self, when):
         Xt, Yt, Xv, Yv = self.caller
         if len(Xt) != self.initial_sizes[0] or len(Yt) != self.initial_sizes[0] or len(Xv) != self.initial_sizes[1] or len(Yv) != self.initial_sizes[1]:
@@ -215,7 +237,8 @@ class Observer:
         self.predicts_since_fit = 0
         self.out.steps += 1
         Ys = [int(np.asarray(y).ravel()[0]) for y in Y]
-        op = self.case["op"]
+        op = self.op
+        self.fits_in_step += 1
         if op == "learn":
             self.check_conservation("at fit #%d inside learn" % self.fits)
             cur = [np.ascontiguousarray(r, dtype=np.float64).tobytes() + bytes([y % 251]) for r, y in zip(np.asarray(X), Ys)]
@@ -247,11 +270,24 @@ class Observer:
         sg = model.subgraph
         R = {i for i, n in enumerate(sg.nodes) if n.relevant != B.constants.IRRELEVANT}
         self.log.add("predict", tuple(int(p) for p in preds), tuple(sorted(R)))
-        if self.case["op"] == "prune":
+        if self.op == "prune":
+            if self.fits_in_step == 0 or self.stale_checked is False:
+                # the relevance that prune acts on must come from a classifier of the given
+                # training set (a model left over from an earlier call is something else)
+                have = collections.Counter((np.ascontiguousarray(nd.features, dtype=np.float64).tobytes(), int(nd.label)) for nd in sg.nodes)
+                self.stale_checked = True
+                if self.fits_in_step == 0 and have != self.multiset(self.caller[0], self.caller[1]):
+                    raise Stop(violation("prune-relevance-from-stale-model", "prune ran its prediction pass on a classifier that was not fitted on the training set it was given (%d nodes vs %d rows; left over from an earlier call on the same object)" % (len(sg.nodes), len(self.caller[0]))))
             self.relevant_after_pass = collections.Counter(
                 (np.ascontiguousarray(sg.nodes[i].features, dtype=np.float64).tobytes(), int(sg.nodes[i].label)) for i in R
             )
-        if self.predicts_since_fit == 1 or self.case["op"] == "relevance":
+        if self.op == "seq-predict":
+            NIL = B.constants.NIL
+            for i in R:
+                pr = sg.nodes[i].pred
+                if pr != NIL and pr not in R:
+                    raise Stop(violation("relevance-not-closed", "training sample %d is flagged relevant but its predecessor %d is not" % (i, pr)))
+        elif self.predicts_since_fit == 1 or self.op == "relevance":
             self.check_relevance(model, X, R, cumulative=self.predicts_since_fit > 1)
 
     def check_relevance(self, model, X, R, cumulative):
@@ -310,6 +346,22 @@ class Observer:
         if R and len(R) < n:
             self.rel_nontrivial = True
 
+    def begin_step(self, op):
+        """Reset everything that is per call (a sequence runs several calls on one object)."""
+        self.op = op
+        self.fits_in_step = 0
+        self.stale_checked = False
+        self.snapshots = []
+        self.relevant_after_pass = None
+        self.changed_rows = []
+        self.prev_train = None
+        self.discarded = False
+        Xt, Yt, Xv, Yv = self.caller
+        self.initial = self.multiset(Xt, Yt) + self.multiset(Xv, Yv)
+        self.initial_sizes = (len(Xt), len(Xv))
+        self.original_train = self.multiset(Xt, Yt)
+        self.kept_before = len(Xt)
+
     def on_accuracy(self, labels, preds, acc):
         m = self.model
         st = subgraph_state(m.subgraph, skip=("relevant",)) if m is not None and m.subgraph is not None else None
@@ -367,10 +419,8 @@ def run_case(case):
         Xt, Yt = arr(case["Xt"]).reshape(-1, d), iarr(case["Yt"])
         Xv, Yv = arr(case["Xv"]).reshape(-1, d), iarr(case["Yv"])
         obs.caller = (Xt, Yt, Xv, Yv)
-        obs.initial = obs.multiset(Xt, Yt) + obs.multiset(Xv, Yv)
-        obs.initial_sizes = (len(Xt), len(Xv))
-        obs.original_train = obs.multiset(Xt, Yt)
-        obs.kept_before = len(Xt)
+        obs.fits_in_step = 0
+        obs.stale_checked = False
 
         def acc_wrapper(labels, preds):
             bump(out.seams, "opf_accuracy_calls")
@@ -388,60 +438,84 @@ def run_case(case):
         Observed = make_observed(B.supervised_mod.SupervisedOPF)
         opf = Observed(distance=case["metric"])
         op = case["op"]
-        if op == "learn":
-            lib_call("learn", opf.learn, Xt, Yt, Xv, Yv, n_iterations=case["iters"])
-            obs.check_conservation("at return from learn")
-            if obs.fits > case["iters"]:
-                bump(out.probes, "more_fits_than_n_iterations")
-            # J2
-            if obs.snapshots:
-                best = max(a for a, _, _ in obs.snapshots)
-                final_state = subgraph_state(opf.subgraph, skip=("relevant",))
-                final = dig(final_state)
-                ok = [i for i, (a, dg, _) in enumerate(obs.snapshots) if a == best]
-                if not any(obs.snapshots[i][1] == final for i in ok):
-                    same = [i for i, (_, dg, _) in enumerate(obs.snapshots) if dg == final]
-                    raise Stop(
-                        violation(
-                            "learn-best-model-not-kept",
-                            "accuracies per iteration %s; the best is %r at iteration(s) %s but the object left by learn holds %s"
-                            % ([a for a, _, _ in obs.snapshots], best, ok, ("the forest of iteration(s) %s" % same) if same else "a forest that matches no iteration"),
-                            holds_last=bool(same) and same[-1] == len(obs.snapshots) - 1,
+        steps = case["seq"] if op == "seq" else [op]
+        nontrivial = False
+        state_bits = []
+        for si, step in enumerate(steps):
+            obs.begin_step(step if step in ("learn", "prune") else "relevance")
+            if step == "learn":
+                lib_call("learn", opf.learn, Xt, Yt, Xv, Yv, n_iterations=case["iters"])
+                obs.check_conservation("at return from learn")
+                if obs.fits_in_step > case["iters"]:
+                    bump(out.probes, "more_fits_than_n_iterations")
+                # J2
+                if obs.snapshots:
+                    best = max(a for a, _, _ in obs.snapshots)
+                    final_state = subgraph_state(opf.subgraph, skip=("relevant",))
+                    final = dig(final_state)
+                    ok = [i for i, (a, dg, _) in enumerate(obs.snapshots) if a == best]
+                    if not any(obs.snapshots[i][1] == final for i in ok):
+                        same = [i for i, (_, dg, _) in enumerate(obs.snapshots) if dg == final]
+                        raise Stop(
+                            violation(
+                                "learn-best-model-not-kept",
+                                "accuracies per iteration %s; the best is %r at iteration(s) %s but the object left by learn holds %s"
+                                % ([a for a, _, _ in obs.snapshots], best, ok, ("the forest of iteration(s) %s" % same) if same else "a forest that matches no iteration"),
+                                holds_last=bool(same) and same[-1] == len(obs.snapshots) - 1,
+                            )
                         )
-                    )
-                if ok[0] != len(obs.snapshots) - 1:
-                    bump(out.probes, "best_iteration_is_not_last")
-                if best == 0.0:
-                    bump(out.probes, "accuracy_zero_in_every_iteration")
-                if len(ok) > 1:
-                    bump(out.probes, "tie_for_best_accuracy")
-            swaps = sum(obs.changed_rows)
-            if swaps:
-                bump(out.probes, "learn_swapped_rows")
-            out.nontrivial = swaps >= 1 and obs.fits >= 2
-            out.states = {h64(("learn", obs.fits, tuple(obs.changed_rows), (max(range(len(obs.snapshots)), key=lambda i: obs.snapshots[i][0]) if obs.snapshots else -1), out.probes.get("prototype_index_drawn", 0) > 0))}
-        elif op == "prune":
-            lib_call("prune", opf.prune, Xt, Yt, Xv, Yv, n_iterations=case["iters"])
-            if obs.multiset(Xt, Yt) != obs.original_train or obs.multiset(Xv, Yv) + obs.original_train != obs.initial:
-                raise Stop(violation("prune-modified-caller-arrays", "prune changed the caller's training/validation arrays"))
-            final = collections.Counter((np.ascontiguousarray(n.features, dtype=np.float64).tobytes(), int(n.label)) for n in opf.subgraph.nodes)
-            extra = final - obs.original_train
-            if extra:
-                raise Stop(violation("prune-not-submultiset", "the pruned classifier holds (row, label) pairs that are not in the original training set: %s" % _fmt(extra)))
-            out.nontrivial = obs.discarded
-            out.states = {h64(("prune", obs.fits, len(opf.subgraph.nodes), len(Xt)))}
-            if obs.fits >= 3 and len(obs.fit_inputs) == 0:
-                pass
-        else:
-            lib_call("fit", opf.fit, Xt, Yt)
-            for p in range(case.get("passes", 1)):
-                # later passes predict other rows: flags accumulate over passes on one model
-                Xq = Xv if p == 0 else (Xt if p == 1 else Xv[::-1])
-                lib_call("predict", opf.predict, Xq.copy())
-            out.nontrivial = obs.rel_nontrivial
-            out.states = {h64(("rel", len(Xt), len([n for n in opf.subgraph.nodes if n.relevant != B.constants.IRRELEVANT])))}
+                    if ok[0] != len(obs.snapshots) - 1:
+                        bump(out.probes, "best_iteration_is_not_last")
+                    if ok == [len(obs.snapshots) - 1] and obs.changed_rows_after_last:
+                        bump(out.probes, "best_is_last_iteration_and_it_swapped")
+                    if best == 0.0:
+                        bump(out.probes, "accuracy_zero_in_every_iteration")
+                    if len(ok) > 1:
+                        bump(out.probes, "tie_for_best_accuracy")
+                swaps = sum(obs.changed_rows)
+                if swaps:
+                    bump(out.probes, "learn_swapped_rows")
+                nontrivial = nontrivial or (swaps >= 1 and obs.fits_in_step >= 2)
+                state_bits.append(("learn", obs.fits_in_step, tuple(obs.changed_rows), (max(range(len(obs.snapshots)), key=lambda i: obs.snapshots[i][0]) if obs.snapshots else -1), out.probes.get("prototype_index_drawn", 0) > 0))
+            elif step == "prune":
+                before_t, before_v = obs.multiset(Xt, Yt), obs.multiset(Xv, Yv)
+                lib_call("prune", opf.prune, Xt, Yt, Xv, Yv, n_iterations=case["iters"])
+                if obs.multiset(Xt, Yt) != before_t or obs.multiset(Xv, Yv) != before_v:
+                    raise Stop(violation("prune-modified-caller-arrays", "prune changed the caller's training/validation arrays"))
+                final = collections.Counter((np.ascontiguousarray(n.features, dtype=np.float64).tobytes(), int(n.label)) for n in opf.subgraph.nodes)
+                extra = final - obs.original_train
+                if extra:
+                    raise Stop(violation("prune-not-submultiset", "the pruned classifier holds (row, label) pairs that are not in the original training set: %s" % _fmt(extra)))
+                nontrivial = nontrivial or obs.discarded
+                state_bits.append(("prune", obs.fits_in_step, len(opf.subgraph.nodes), len(Xt)))
+                if si > 0:
+                    bump(out.probes, "prune_on_an_already_used_object")
+            elif step in ("fit", "fit_other"):
+                if step == "fit_other":
+                    lib_call("fit", opf.fit, arr(case["Xo"]).reshape(-1, d), iarr(case["Yo"]))
+                else:
+                    lib_call("fit", opf.fit, Xt, Yt)
+                state_bits.append((step,))
+            elif step == "predict":
+                if opf.subgraph is None or not opf.subgraph.trained:
+                    continue
+                # a pass on a model with history: the union of everything predicted since its
+                # last fit is unknown here, so only a fresh-fit pass gets the full J3 (below)
+                obs.op = "seq-predict"
+                lib_call("predict", opf.predict, Xv.copy())
+                state_bits.append((step,))
+            else:
+                lib_call("fit", opf.fit, Xt, Yt)
+                for p in range(case.get("passes", 1)):
+                    # later passes predict other rows: flags accumulate over passes on one model
+                    Xq = Xv if p == 0 else (Xt if p == 1 else Xv[::-1])
+                    lib_call("predict", opf.predict, Xq.copy())
+                nontrivial = nontrivial or obs.rel_nontrivial
+                state_bits.append(("rel", len(Xt), len([n for n in opf.subgraph.nodes if n.relevant != B.constants.IRRELEVANT])))
+        out.nontrivial = nontrivial
+        out.states = {h64(tuple(state_bits))}
         out.digest = log.hexdigest()
-        out.hist = h64((op, case["metric"], case["iters"], repr(case["Xt"]), repr(case["Yt"]), repr(case["Xv"]), repr(case["Yv"]), repr(case["ops"])))
+        out.hist = h64((op, tuple(steps), case["metric"], case["iters"], repr(case["Xt"]), repr(case["Yt"]), repr(case["Xv"]), repr(case["Yv"]), repr(case["ops"])))
     except Stop as s:
         out.violation = s.violation
     except OutOfDomain:
